@@ -203,6 +203,16 @@ _add("C17", "The wrapped method rotates through every command of a client (incr,
 _add("C18", "noreply=None passed explicitly, 600- and 1100-key reads, close() in the middle of a session.")
 _add("C20", "Clients whose value encoding is latin-1 / cp1252 / utf-16 (keys stay ASCII / UTF-8).")
 _add("C03", "Stat values that end like a terminator line.")
+_add("C08", "A forked child is modelled (os.getpid() changes once the fresh pool exists) with two threads making the first calls; commands PooledClient does not wrap upstream are operations if it offers them; close() with two idle connections and a dead peer on one.")
+_add("C09", "Calls made while the caller handles an exception of its own, client_class set to a Client subclass whose instances are falsy, and the wall clock stepping back between two calls.")
+_add("C17", "A third of the cases let every attempt take longer than retry_delay on a virtual clock installed behind every clock binding of retrying.py.")
+_add("C05", "A short-lived shallow copy of the client inside histories; multi-key calls with nothing in them.")
+_add("C20", "Keys that are instances of str/bytes subclasses printing differently, a shallow copy of the client, and two threads validating keys (instruction granularity) after thousands of earlier keys.")
+_add("C12", "Pickle serde with stored values that deserialise to None / falsy; both spellings of a server key in one batch; a second HashClient with other servers works in the same process.")
+_add("C15", "Values whose pickles name standard-library classes (os.stat_result, socket.AddressFamily, datetime, Decimal, deque, ...).")
+_add("C10", "Several servers without pooling (one connection per server in flight when the interrupt comes).")
+_add("C14", "The default seed is 0.")
+_add("C06", "The fail-over histories behind the add_server defect are spelled out (recover just before the evicting call, revival after dead_timeout, close).")
 NOT_YET = "check not built yet in this round (runtime-monitoring design in DESIGN.md §2); will be claimed once its monitor exists"
 
 manifest = {
